@@ -1,5 +1,6 @@
 import Capella.Lemmas.DeclYaml
 import Capella.Lemmas.DeclSync
+import Capella.Lemmas.DeclSync2
 import Capella.Lemmas.DeclPep440
 
 /-!
@@ -53,6 +54,17 @@ theorem settled_run_changes_nothing {mm : MM} {g : Graph}
     {doc : List Instr} {g' : Graph} {ps' : Promises} (hdoc : ∀ i ∈ doc, SettledInstr g i)
     (h : apply mm g doc = .ok (g', ps')) : g' = g :=
   settled_apply hdoc h
+
+open Capella.Decl in
+/-- **… and the second run does not raise**: over a settled document in which no promise id is declared
+twice, `apply` returns — with the very same graph. (A settled state can only ever meet "promise_id defined
+twice", and that needs an id declared twice; such a document fails on the first run as well.) Together
+with `settled_run_changes_nothing`: the second run finds everything, creates nothing, changes nothing,
+raises nothing. -/
+theorem settled_second_run_succeeds {mm : MM} {g : Graph} {doc : List Instr}
+    (hdoc : ∀ i ∈ doc, SettledInstr g i) (hpid : ∀ q, sumBy (Instr.pidN (indS q)) doc ≤ 1) :
+    ∃ ps', apply mm g doc = .ok (g, ps') :=
+  settled_apply_ok hdoc hpid
 
 open Capella.Decl in
 /-- **The first run settles an entry it creates** — exactly when no `set` key overrides a `find` key: if
@@ -145,6 +157,11 @@ example : ∀ i ∈ settledDoc, SettledInstr gSettled i := by
 
 example : (match apply (MM.free []) gSettled settledDoc with | .ok r => some (decide (r.1 = gSettled), r.2) | .error _ => none)
     = some (true, [(ds "p", 5)]) := by decide
+
+/-- the promise ids of `settledDoc` are distinct (hypothesis of `settled_second_run_succeeds`) -/
+example : ∀ q, sumBy (Instr.pidN (indS q)) settledDoc ≤ 1 := by
+  intro q
+  by_cases h : ds "p" = q <;> simp [settledDoc, sumBy, Instr.pidN, kidsPidN, setPidN, syncPidN, sosPidN, SyncObj.pidN, SetVal.pidN, optN, indS, h]
 
 end
 
